@@ -158,7 +158,10 @@ OBJ_BY_WIRE_NAME = {
     "error": [{"code": -32601, "message": "m"}, {"code": 1, "message": "\u00e9", "data": {"k": [1, "s"]}},
               {"code": -32000, "message": "", "x-extra": True}],
 }
-INT_SAMPLES = [1, 0, -1, 2 ** 53 + 1]
+# integers outside [-2^63, 2^64-1] are legal JSON numbers that the optional fast codec refuses (it must hand over to the
+# standard library), so they belong to every integer position and into the free-form values
+BIG_INTS = [2 ** 64, -(2 ** 63) - 1, 10 ** 30]
+INT_SAMPLES = [1, 0, -1, 2 ** 53 + 1] + BIG_INTS
 FLOAT_SAMPLES = [0.5, 1, 0.0, 1e-3]
 BOOL_SAMPLES = [True, False]
 OBJ_SAMPLES = [
@@ -166,7 +169,30 @@ OBJ_SAMPLES = [
     {},
     {"type": "object", "properties": {"a": {"type": "string"}}, "n": [1, 2.5, True], "_meta": {"x": 1}, "\u00e9": "\u00e9"},
 ]
+OBJ_SAMPLES.append({"big": list(BIG_INTS), "n": {"deep": [BIG_INTS[0]]}})
 MAX_MODEL_SAMPLES = 8
+_ALIAS_PROBE: Dict[str, Any] = {}
+
+
+def alias_named_keys() -> Dict[str, Any]:
+    """A free-form object whose keys, at depth 1-3, are spelled like the wire names AND like the Python attribute
+    names of every aliased member of every discovered class (meta, _meta, schema_, schema, ...)."""
+    if not _ALIAS_PROBE:
+        names: List[str] = []
+        for c in discover()[0]:
+            for f in fields(c):
+                if f.wire != f.name:
+                    for n in (f.name, f.wire):
+                        if n not in names:
+                            names.append(n)
+        level3 = {n: i for i, n in enumerate(names)}
+        level2 = {n: ({**level3, "leaf": n} if i % 2 == 0 else [dict(level3)]) for i, n in enumerate(names)}
+        _ALIAS_PROBE.update({n: (level2 if i == 0 else {"inner": level2} if i == 1 else i) for i, n in enumerate(names)})
+        _ALIAS_PROBE["plain"] = dict(level2)
+    import copy
+
+    return copy.deepcopy(_ALIAS_PROBE)
+
 
 
 def _strip_optional(tp: Any) -> Tuple[Any, bool]:
@@ -181,7 +207,7 @@ def _strip_optional(tp: Any) -> Tuple[Any, bool]:
 def samples(tp: Any, depth: int, where: str, wire_name: Optional[str] = None) -> List[Any]:
     tp, _ = _strip_optional(tp)
     if tp is Any or tp is object:
-        return list(ANY_SAMPLES)
+        return list(ANY_SAMPLES) + [alias_named_keys(), BIG_INTS[0]]
     if tp is str:
         return list(STR_BY_WIRE_NAME.get(wire_name or "", STR_SAMPLES))
     if tp is bool:
@@ -191,7 +217,7 @@ def samples(tp: Any, depth: int, where: str, wire_name: Optional[str] = None) ->
     if tp is float:
         return list(FLOAT_SAMPLES)
     if tp is dict:
-        return [dict(x) for x in OBJ_SAMPLES]
+        return [dict(x) for x in OBJ_SAMPLES] + [alias_named_keys()]
     origin = typing.get_origin(tp)
     args = typing.get_args(tp)
     if origin is typing.Literal:
@@ -215,9 +241,14 @@ def samples(tp: Any, depth: int, where: str, wire_name: Optional[str] = None) ->
     if origin in (dict, Dict):
         vt = args[1] if len(args) > 1 else Any
         if vt is Any:
-            return [dict(x) for x in OBJ_BY_WIRE_NAME.get(wire_name or "", OBJ_SAMPLES)]
+            base_ = [dict(x) for x in OBJ_BY_WIRE_NAME.get(wire_name or "", OBJ_SAMPLES)]
+            probe = alias_named_keys()
+            if wire_name in OBJ_BY_WIRE_NAME:
+                probe = {**base_[0], "data": probe}          # keep the documented shape, put the probe inside it
+            return base_ + [probe]
         vs = samples(vt, depth, where, None)
-        return _dedupe([{"K": vs[0]}, {}] + ([{"K": vs[0], "k2": vs[1]}] if len(vs) > 1 else []))
+        return _dedupe([{"K": vs[0]}, {}] + ([{"K": vs[0], "k2": vs[1]}] if len(vs) > 1 else []) +
+                       ([{"K": vs[-1]}] if len(vs) > 2 else []))
     if is_model(tp):
         return model_samples(tp, depth)
     raise GenError(f"{where}: no generation rule for annotation {tp!r}")
@@ -306,6 +337,7 @@ SUBSET_LIMIT = 6
 UNKNOWN_NAMES = [("plain", "x-extra"), ("underscore-prefix", "_vendorHint"), ("_meta", "_meta"),
                  ("dunder-prefix", "__dunder"), ("empty", ""), ("space", "with space"), ("non-ascii", "\u00e9-\u540d")]
 UNKNOWN_VALUES = [("scalar", 7), ("null", None), ("object-with-null", {"k": [1, None], "n": None, "s": "v"})]
+UNKNOWN_PROBE_NAMES = ("plain", "_meta")      # unknown members that additionally carry the alias-named-keys object
 # member names that collide with Python-level names of the model classes (constructor parameter, methods, dunders)
 RESERVED_NAMES = ["self", "cls", "data", "__init__", "model_config", "model_dump"]
 UNKNOWN_DEPTH = 2
@@ -463,6 +495,9 @@ def wire_objects(cls: type, depth: int = 2, pairs: bool = False) -> List[Tuple[s
         for name in RESERVED_NAMES:
             if name not in declared_here:
                 out.append((f"unknown:reserved:{name}=scalar@{at}", with_member(full_w, path, name, 7)))
+        for kind, name in UNKNOWN_NAMES:
+            if kind in UNKNOWN_PROBE_NAMES and name not in declared_here:
+                out.append((f"unknown:{kind}=alias-named-keys@{at}", with_member(full_w, path, name, alias_named_keys())))
     for kind, name in UNKNOWN_NAMES + [("reserved:" + n, n) for n in RESERVED_NAMES]:
         if name not in declared:
             out.append((f"unknown:{kind}=scalar@<top>/min", with_member(min_w, (), name, UNKNOWN_VALUES[0][1])))
